@@ -43,9 +43,7 @@ Theorem C04_wrap_implicit_text :
   forall (jsx : bool) (env : cenv) (max_repeat : option N) (s : str) (toks : list token) (root : list tnode),
     tokenize s = TOk toks -> parse jsx toks = POk root ->
     convert env max_repeat root = Ok (convert_w env max_repeat root).
-Proof.
-  intros jsx env mr s toks root Ht Ep. apply convert_wrap_full. exact (parser_output_printable jsx s toks root Ht Ep).
-Qed.
+Proof. exact convert_text_full. Qed.
 Print Assumptions C04_wrap_implicit_text.
 
 (* ... and one statement in ANY converter state: any repeater stack the converter can have built
@@ -107,7 +105,7 @@ Theorem C04_wrap_count_is_lines :
     ce_text env = WList lines -> rimplicit r0 = true ->
     copies_of env r0 = N.of_nat (length (wrap_lines lines)) /\
     forall i, wrap_line env i = nth (N.to_nat i) (wrap_lines lines) [].
-Proof. intros env r0 lines Et Hi. split; [exact (copies_of_lines env r0 lines Et Hi)|intros i; exact (wrap_line_lines env lines i Et)]. Qed.
+Proof. exact wrap_count_is_lines. Qed.
 Print Assumptions C04_wrap_count_is_lines.
 
 (* (C) inside copy i every `$#` prints line i, however many explicit repeaters lie between the place and
@@ -127,7 +125,7 @@ Theorem C04_place_line_rule :
     place_line env true i (x0 :: xs, w) =
       if w_ins w then (x0 :: xs, w)
       else (on_last_deepest (fun n => insert_text n (wrap_line env i)) (x0 :: xs), w_set_tins w).
-Proof. intros env i x0 xs w. unfold place_line. cbn [andb]. destruct (w_ins w); reflexivity. Qed.
+Proof. exact place_line_rule. Qed.
 Print Assumptions C04_place_line_rule.
 
 (* ---- non-vacuity: nested explicit repeaters inside an implicit one, `$#` at two depths, a group, an
